@@ -157,7 +157,15 @@ def check_error_shape(r, files):
             src = m.source_file
             loc = m.location
             if loc.is_synthetic:
-                problems.append(("synthetic-location", m.message))
+                # positions of expressions the compiler made up are meaningless; the one piece of user
+                # text the compiler rewrites in place is `$next`, which must keep a usable position
+                kind = "synthetic-location"
+                if src in files and loc.start.line >= 1:
+                    ls = files[src].splitlines()
+                    if loc.start.line <= len(ls) and loc.end.line == loc.start.line:
+                        if ls[loc.start.line - 1][loc.start.column - 1 : loc.end.column - 1] == "$next":
+                            kind = "synthetic-flag-on-user-text"  # the user's `$next`, rewritten by the compiler
+                problems.append((kind, m.message))
                 continue
             if src == "":
                 continue  # the prelude
